@@ -22,6 +22,7 @@ package file
 //@ assigns rpos(result)
 
 //@ func (*file.singleNodeReader).Seek
+//@ prop C01
 //@ at return ghost rpos(f) = f.offset
 //@ domain no-wrap: -(1 << 62) < offset && offset < (1 << 62)
 //@ ensures load-error: nodeBytesErr(f.Node) != nil ==> err != nil && f.offset == old(f.offset)
@@ -30,6 +31,7 @@ package file
 //@ assigns f.offset, rpos(f)
 
 //@ func (*file.singleNodeReader).Read
+//@ prop C01
 //@ domain no-alias: base(p) != base(nodeBytes(f.Node))
 //@ ensures load-error: nodeBytesErr(f.Node) != nil ==> result == 0 && err != nil && f.offset == old(f.offset)
 //@ ensures eof-at-or-past-end: nodeBytesErr(f.Node) == nil && old(f.offset) >= len(nodeBytes(f.Node)) ==> result == 0 && err == io.EOF && f.offset == old(f.offset)
